@@ -15,9 +15,34 @@ def build_history(ctx, sess, n_parse, n_ops, kinds=('and', 'or', 'not'), battery
         reg, r = sess.parse(t)
         if reg is not None:
             regs.append(reg)
-    if pre:
-        pre(regs)       # operands produced by other API calls (simplification, restriction, complexify)
     steps = []
+    if pre:
+        n0 = len(regs)
+        pre(regs)       # operands produced by other API calls (simplification, restriction, complexify)
+        # requires-python ranges with every kind of bound on fixed markers, so that each shape of range is an operand in every run
+        for text in ("python_full_version < '3.10'", "os_name == 'posix'", "python_version >= '3.7' and extra == 'a'"):
+            base, _ = sess.parse(text)
+            if base is None:
+                continue
+            for lo, hi in ((['E', S('3.8')], 'U'), (['I', S('3.8')], 'U'), ('U', ['I', S('3.9')]), ('U', ['E', S('3.9')]), (['E', S('3.8')], ['I', S('3.9')]), (['I', S('3.8')], ['E', S('3.8.1')])):
+                for k in ('cplxpv', 'simppv'):
+                    reg, r = sess.op(k, base, lo, hi)
+                    if reg is not None:
+                        regs.append(reg)
+        # each of them takes part in a negation and in a disjunction / conjunction with a parsed marker at least once
+        if 'not' in kinds:
+            for x in regs[n0:]:
+                reg, r = sess.op('not', x)
+                if reg is not None:
+                    regs.append(reg)
+                    steps.append(('not', (x,), reg))
+        for x in list(regs[n0:]):
+            for k in [k for k in ('or', 'and') if k in kinds]:
+                y = ctx.rng.choice(regs[:n0])
+                reg, r = sess.op(k, x, y)
+                if reg is not None:
+                    regs.append(reg)
+                    steps.append((k, (x, y), reg))
     # boundary battery: all ordered pairs of the six comparisons of one key against ONE value, and neighbouring
     # values, under and / or: ranges that touch at a bound with every combination of inclusive / exclusive ends
     if battery and ('and' in kinds or 'or' in kinds):
@@ -105,6 +130,9 @@ def correspond(ctx, sess, steps, opname=None, vm=0):
 
 def monitor(ctx, sess, regs):
     """the verified checker wfb on every diagram the crate produced (operands of the theorems are [ok])"""
+    for what, how in sess.anomalies[:5]:
+        ctx.failure(what, how)
+    del sess.anomalies[:]
     cmds, rs = [], []
     for r in regs:
         m = sess.models[r]
@@ -124,8 +152,18 @@ def monitor(ctx, sess, regs):
     return bad
 
 
+PAD = ['zz-pad-1', 'aa-pad-2', 'mm-pad-3']      # extras no generated marker mentions
+
+
 def eval_all(sess, reg, env, extras):
     r = sess.ask(['eval', str(reg), markers.env_sexp(env), [S(x) for x in extras]])
+    if extras and r[0] == 'ok':
+        # the active extras are a set: another order, with unrelated names mixed in, must not change any answer
+        other = [PAD[0]] + list(reversed(extras)) + PAD[1:]
+        r2 = sess.ask(['eval', str(reg), markers.env_sexp(env), [S(x) for x in other]])
+        if r2[0] != 'ok' or r2[1:6] != r[1:6]:
+            sess.anomalies.append(('the order of the active extras (and unrelated extra names) changes the evaluation: %s with %r, %s with %r'
+                                   % (dump(r[1:6]), extras, dump(r2[1:6]) if r2[0] == 'ok' else dump(r2)[:80], other), {'marker': markers.describe(sess, reg), 'env': env, 'extras': extras, 'reordered': other}))
     return r
 
 
